@@ -27,6 +27,7 @@ struct Profile {
 	uint32_t w_ping = 6, w_up = 4, w_offer = 4, w_adv = 3, w_nreq = 1, w_redeliver = 0, w_freeze = 0, w_rawmix = 0, w_recycle = 0;
 	int max_sessions = 1;
 	bool wild_frag = false;     // C15: fragment sizes from the hostile list, ack games
+	bool z_cmc = false;         // C16: half of the sessions start their data cache-miss counter just below 'z' (the real client starts at 'a' and gets there after 25 data queries)
 	bool recycle_moves = false; // C14: after the silent period the host logs in again from another port (one recycle in two): whatever the server still holds for the earlier session must not be answered to the new address
 	bool big_frag = false;      // C16: one session in four negotiates a fragment size of 1200..4094 (boundary values 2047/2048, 4093/4094) and gets packets of up to 4600 bytes, so that answers of up to 4096 bytes pass through the answer cache
 	bool ack_games = false;
@@ -101,7 +102,7 @@ struct Run {
 	std::string render;
 	bool up = false;
 	// statistics for the non-trivial rules
-	int n_red_after_lower = 0;
+	int n_red_after_lower = 0, n_red_case_z = 0;
 	int n_redeliver = 0, n_red_cache = 0, n_red_qmem = 0, n_red_pending = 0, n_red_lastfrag = 0, n_red_case = 0, n_red_otheraddr = 0;
 	int n_multi3 = 0, n_nreq_ok = 0, n_badfrag = 0, n_dup_twice = 0, n_realsoon = 0, n_tun_via_held = 0, n_long = 0;
 	int n_cache_same = 0, n_trunc = 0, n_lost_answers = 0, n_giveup = 0, n_raw = 0, n_recycled = 0, n_recycled_same_name = 0, n_recycled_data_before_n = 0, n_c2c = 0, n_red_altdomain = 0, n_qr = 0, n_hsreq = 0, n_wrap = 0, n_merge = 0, n_glue = 0, n_infra = 0, n_merge_lost_first = 0, n_excluded_k4 = 0, n_stray = 0, n_late = 0, n_excluded_k5 = 0, n_recycled_moved = 0;
@@ -743,10 +744,22 @@ struct Engine {
 		int of = t.chance(1, 2) ? src->back() : (*src)[t.below((uint32_t)src->size())];
 		// is it (also) in the cache window?
 		if (window == 2 && std::find(cache.begin(), cache.end(), of) != cache.end()) window = 1;
-		const QRec o = R.q[of];   // copy: record() below grows R.q
+		QRec o = R.q[of];   // copy: record() below grows R.q
 		std::string name = o.name; bool identical = true;
 		bool can_flip = o.ack.is_ping || p.sc.up_codec == 0;
-		if (can_flip && t.chance(1, 5)) { name = flip_case(o.name, t); identical = name == o.name; if (!identical) { p.flips++; R.n_red_case++; } }
+		bool flip = can_flip && t.chance(1, 5), forced = false;
+		if (!o.ack.is_ping && p.sc.up_codec == 0 && src != &pend && (flip || (R.q.size() & 1))) {
+			// a case-changed repeat of a data query: the oldest one in the data window whose 4-character fingerprint (the header characters
+			// behind the user id) contains the last letter of the alphabet, where a case fold written as a range test goes wrong first.
+			// No tape draw: whether an unflipped repeat is turned into this one depends on the history only, and it is upper-cased as a whole
+			for (size_t k = qd.size(); k-- > 0;) {
+				const std::string &nm = R.q[qd[k]].name;
+				if (nm.size() > 5 && nm.substr(1, 4).find('z') != std::string::npos) { of = qd[k]; o = R.q[of]; name = o.name; forced = !flip; R.n_red_case_z++; break; }
+			}
+			window = std::find(cache.begin(), cache.end(), of) != cache.end() ? 1 : 2;
+		}
+		if (flip) { name = flip_case(o.name, t); identical = name == o.name; if (!identical) { p.flips++; R.n_red_case++; } }
+		else if (forced) { for (auto &ch : name) if (ch >= 'a' && ch <= 'z') ch = (char)(ch - 32); identical = false; p.flips++; R.n_red_case++; }
 		if (P.wild && !R.cfg.srv_domain.empty() && t.chance(1, 3) && name.size() > p.sc.domain.size() && name.compare(name.size() - p.sc.domain.size(), std::string::npos, p.sc.domain) == 0) {
 			// the same payload under another sub-domain of the wildcard: a different question, which needs an answer of its own
 			size_t dot = p.sc.domain.find('.');
@@ -827,6 +840,7 @@ inline void run_sessions(Tape &t, const Profile &P, Run &R)
 		bool ok = p->sc.handshake(p->lazy, F0, de, upb);
 		if (!ok) { R.up = false; R.render = c.describe() + " | scripted handshake failed"; return; }
 		if (F0) p->F = F0;
+		if (P.z_cmc && (c.srv_seed & 2)) p->sc.data_cmc = 21 + (int)((c.srv_seed >> 2) % 5);   // no tape draw
 		p->tun_ip = ip_of_text(p->sc.tun_ip_text);
 		R.peers.push_back(std::move(p));
 		R.render += fmt("[peer%d %s user=%d lazy=%d F=%d down=%c upbits=%d] ", k, R.peers.back()->sc.addr.str().c_str(), R.peers.back()->sc.userid, (int)R.peers.back()->lazy, R.peers.back()->F, de ? de : '-', upb);
